@@ -16,10 +16,14 @@ fn viol(sc: &ChanSc, property: &str, class: &str, extra: &[(&str, String)], deta
   Violation { property: property.into(), class: class.into(), facets, detail }
 }
 
+fn recv_outcome_seen(evs: &[Ev], res: RRes) -> bool {
+  evs.iter().any(|e| matches!(&e.k, EvK::Recv { out, .. } if out.res == res))
+}
+
 fn recv_forms_used(evs: &[Ev]) -> String {
   let mut s: BTreeSet<String> = BTreeSet::new();
   for e in evs {
-    if let EvK::Recv { form, out, is_async } = &e.k {
+    if let EvK::Recv { form, out, is_async, .. } = &e.k {
       if matches!(out.res, RRes::Timeout | RRes::Cancelled) {
         s.insert(format!("{}{:?}:{:?}", if *is_async { "async_" } else { "" }, form, out.res));
       }
@@ -48,10 +52,6 @@ pub fn evaluate(sc: &ChanSc, run: &ChanRun) -> Vec<Violation> {
     // the history of an aborted run is incomplete: the remaining oracles need a complete one
     return vs;
   }
-  if run.out.no_park_violations > 0 {
-    vs.push(viol(sc, "C03", "try_operation_parked", &[], format!("{} park(s) inside try_* operations", run.out.no_park_violations)));
-  }
-
   // ---- token bookkeeping -------------------------------------------------------------------
   let mut ok_tokens: BTreeMap<u32, (u64, u64, u16)> = BTreeMap::new(); // id -> (inv, ret, tx handle)
   let mut back: BTreeSet<u32> = BTreeSet::new();
@@ -139,8 +139,33 @@ pub fn evaluate(sc: &ChanSc, run: &ChanRun) -> Vec<Violation> {
         sc,
         "C01",
         "ok_send_never_received",
-        &[("cancelled_or_timed_recv", (!timed.is_empty()).to_string())],
+        &[("recv_future_cancelled", recv_outcome_seen(evs, RRes::Cancelled).to_string()), ("recv_timed_out", recv_outcome_seen(evs, RRes::Timeout).to_string())],
         format!("tokens {lost:?} were sent Ok but never received although a receiver drained to Disconnected; timed/cancelled receives in run: [{timed}]"),
+      ));
+      if any_cancel(evs) {
+        // the same loss seen from C06: dropping a pending future must not lose a message
+        vs.push(viol(
+          sc,
+          "C06",
+          "message_lost_with_cancelled_future",
+          &[("recv_future_cancelled", recv_outcome_seen(evs, RRes::Cancelled).to_string())],
+          format!("tokens {lost:?} were sent Ok but never received in a run that dropped pending futures"),
+        ));
+      }
+    }
+  }
+
+  // C05/C06 (hold-open variant): everything sent was eventually received, but only after the
+  // main thread gave up waiting and disconnected: a receiver slept while values were available.
+  if evs.iter().any(|e| matches!(e.k, EvK::HoldOpenTimeout)) {
+    let all_received = ok_tokens.keys().all(|id| received.contains_key(id));
+    if all_received {
+      vs.push(viol(
+        sc,
+        live_prop,
+        "stalled_until_disconnect",
+        &[("recv_future_cancelled", recv_outcome_seen(evs, RRes::Cancelled).to_string()), ("send_future_cancelled", evs.iter().any(|e| matches!(&e.k, EvK::Send { out, .. } if out.res == SRes::Cancelled)).to_string())],
+        format!("values were available but no receiver took them during {} scheduling rounds; they were only received after the last sender was dropped", super::conc::HOLD_OPEN_YIELDS),
       ));
     }
   }
@@ -170,8 +195,13 @@ pub fn evaluate(sc: &ChanSc, run: &ChanRun) -> Vec<Violation> {
     // candidate stamps: returns of successful sends
     let mut recvs: Vec<(u64, u64, usize)> = vec![]; // inv, ret, k
     for e in evs {
-      if let EvK::Recv { out, .. } = &e.k {
-        let k = out.got.iter().filter(|x| **x != u32::MAX).count();
+      if let EvK::Recv { out, max, .. } = &e.k {
+        let mut k = out.got.iter().filter(|x| **x != u32::MAX).count();
+        if out.res == RRes::Cancelled {
+          // a receive future dropped while pending may already have been handed values (they
+          // are lost with it, which is C01/C06's business): it did pair with the senders
+          k = (*max).max(1);
+        }
         if k > 0 {
           recvs.push((e.inv, e.ret, k));
         }
@@ -270,11 +300,6 @@ pub fn evaluate(sc: &ChanSc, run: &ChanRun) -> Vec<Violation> {
             vs.push(viol(sc, "C04", "first_close_failed", &[("side", "rx".into())], format!("first close() of receiver handle {} reported CloseError", e.handle)));
           }
         }
-        EvK::Observe { tx_side, closed, .. } => {
-          if closed_ok.contains(&(*tx_side, e.handle)) && !*closed {
-            vs.push(viol(sc, "C04", "is_closed_false_after_close", &[], format!("handle {} reports is_closed() == false after close()", e.handle)));
-          }
-        }
         _ => {}
       }
     }
@@ -343,7 +368,7 @@ pub fn states(sc: &ChanSc, run: &ChanRun) -> Vec<u64> {
   for e in &run.events {
     match &e.k {
       EvK::Send { form, out: o, is_async, .. } => out.push(hash_str(&format!("{:?}|S|{:?}|{}|{:?}|{}", sc.flavour, form, is_async, o.res, o.sent.min(3)))),
-      EvK::Recv { form, out: o, is_async } => out.push(hash_str(&format!("{:?}|R|{:?}|{}|{:?}|{}", sc.flavour, form, is_async, o.res, o.got.len().min(3)))),
+      EvK::Recv { form, out: o, is_async, .. } => out.push(hash_str(&format!("{:?}|R|{:?}|{}|{:?}|{}", sc.flavour, form, is_async, o.res, o.got.len().min(3)))),
       _ => {}
     }
   }
